@@ -310,6 +310,8 @@ func nodeWriters(c *Ctx, r *Report) {
 				r.OK("R12b", name, what, c.Pos(in.Pos()), "node constructed in this function")
 			case isMergeFn(fn):
 				r.OK("R12b", name, what, c.Pos(in.Pos()), "merge function (shape checked under C01, pairing under C15)")
+			case c.OwnedBy(fn, func(g *ssa.Function) bool { return isMergeFn(g) || recvName(g) == "fields" }):
+				r.OK("R12b", name, what, c.Pos(in.Pos()), "helper called only from merge functions / methods of fields")
 			default:
 				r.Bad("R12b", name, what, c.Pos(in.Pos()), "a node's storage is written outside the fields methods, node construction and the merge functions: a stray write the tree model does not know about")
 			}
